@@ -321,6 +321,10 @@ def bounded_no_panic(ctx, fn):
     from . import dsvm, scanvm, textvm
     mod = fn.lstrip('<').split('::')[0]
     try:
+        if mod == 'get_interpreter_for':
+            from . import facadevm
+            tb, _l = facadevm.iso_table(ctx)
+            return True, all(r[0] == 'ok' for r in tb.values()), 'get_interpreter_for interpreted on %d concrete strings' % len(tb)
         if mod == 'digit_string':
             r1 = dsvm.explore(ctx, dsvm.OPS, 3 if ctx.tier == 'thorough' else 2, 'full')
             r2 = dsvm.explore(ctx, dsvm.OPS_SMALL if ctx.tier == 'thorough' else dsvm.OPS_QUICK, 5 if ctx.tier == 'thorough' else 4, 'small')
